@@ -22,7 +22,9 @@
 //	      short <status> <got>/<n> ...           if the response ended *cleanly* (valid framing, no read error) short of the n scripted bytes
 //	presp c=<k> s=<status> d=<n>:<dig0>/<dig1>/.. seed=<base> mode=cl|chunked     k concurrent clients, client i is sent fx.Body(base+i, n)
 //	   -> <status>:<n>:<dig0> <status>:<n>:<dig1> .. evc=<#connected>/<#disconnected>
-//	listener ret|panic|abort                   StateListener around a handler that returns / panics / panics with ErrAbortHandler
+//	listener ret|panic|abort|retarget|mutate   StateListener around a handler that returns / panics / panics with ErrAbortHandler /
+//	                                           replaces req.URL by a new object / edits req.URL in place and returns; a
+//	                                           'disconnected' reported for another URL object than 'connected' prints as disconnected-other-url
 //	   -> 200|eof ev=<events> rec=<status|->
 //
 // Body bytes are fx.Body(seed, n); the digest on the op line is computed by the generator, the digest printed
@@ -90,7 +92,8 @@ type h struct {
 	done    chan struct{}
 	pending int
 	target  *url.URL // where the wrapper points the request
-	inner   string   // "", "ret", "panic", "abort": what the innermost handler does instead of forwarding
+	inner   string   // "", "ret", "retarget", "mutate", "panic", "abort": what the innermost handler does instead of forwarding
+	pairURL bool     // set for the listener ops: compare the URL objects of the two notifications
 	srv     *httptest.Server
 	tr      *http.Transport
 	be      *fx.Backend
@@ -161,7 +164,14 @@ func newScenario(cfg []string) (hx.Handler, string) {
 		inner, target := s.inner, s.target
 		s.mu.Unlock()
 		switch inner {
-		case "ret":
+		case "ret", "retarget", "mutate":
+			// retarget: a failover step in front of the forwarder hands the request a new URL object;
+			// mutate: it edits the URL it was given in place.  Either way the request then completes.
+			if inner == "retarget" {
+				r.URL = &url.URL{Scheme: "http", Host: "backup.example", Path: r.URL.Path}
+			} else if inner == "mutate" {
+				r.URL.Host = "backup.example"
+			}
 			w.WriteHeader(200)
 			io.WriteString(w, "ok")
 			return
@@ -193,15 +203,21 @@ func newScenario(cfg []string) (hx.Handler, string) {
 		}
 		listened = tr
 	}
-	sl := forward.NewStateListener(listened, func(_ *url.URL, state int) {
+	var connectedURL *url.URL // requests of the listener ops are sequential (presp counts events only)
+	sl := forward.NewStateListener(listened, func(u *url.URL, state int) {
 		name := fmt.Sprintf("state%d", state)
+		s.mu.Lock()
 		switch state {
 		case forward.StateConnected:
 			name = "connected"
+			connectedURL = u
 		case forward.StateDisconnected:
 			name = "disconnected"
+			// the notifications of one request are about one URL: the one 'connected' was reported for
+			if s.pairURL && u != connectedURL {
+				name = "disconnected-other-url"
+			}
 		}
-		s.mu.Lock()
 		s.events = append(s.events, name)
 		s.mu.Unlock()
 	})
@@ -541,10 +557,14 @@ func (s *h) Op(f []string) string {
 		}
 		return out + s.tail()
 	case "listener":
-		if len(f) < 2 || (f[1] != "ret" && f[1] != "panic" && f[1] != "abort") {
+		if len(f) < 2 || (f[1] != "ret" && f[1] != "panic" && f[1] != "abort" && f[1] != "retarget" && f[1] != "mutate") {
 			return "bad-op"
 		}
 		s.prepare(s.be.Addr, f[1])
+		s.mu.Lock()
+		s.pairURL = true
+		s.mu.Unlock()
+		defer func() { s.mu.Lock(); s.pairURL = false; s.mu.Unlock() }()
 		res, err := fx.Do(addr, "GET", []byte(reqBytes), 4*time.Second, nil)
 		if err != nil {
 			return "err client " + strings.ReplaceAll(err.Error(), " ", "_")
